@@ -82,9 +82,11 @@ func init() {
 			}
 			return p
 		},
-		Monitors:   world.MonitorsFor("C07"),
-		Nontrivial: func(r *world.Result) bool { return probe(r, "layout:") || probe(r, "C07:") || probe(r, "fault:") || probe(r, "crash") },
-		Enum:       crashEnum(3000),
+		Monitors: world.MonitorsFor("C07"),
+		Nontrivial: func(r *world.Result) bool {
+			return probe(r, "layout:") || probe(r, "C07:") || probe(r, "fault:") || probe(r, "crash")
+		},
+		Enum: crashEnum(3000),
 	})
 	register(&PropDef{
 		ID: "C15",
@@ -104,8 +106,10 @@ func init() {
 		Gen: func(t *rapid.T, tier string) *world.Plan {
 			return genPlan(t, genOpts{maxCrashes: 2, maxFaults: 2, maxNet: 3, maxLN: 1, sched: true, healAlways: true, silence: true, duration: []int{120, 300, 900}})
 		},
-		Monitors:   world.MonitorsFor("C16"),
-		Nontrivial: func(r *world.Result) bool { return probe(r, "net:silenced") || probe(r, "crash") || probe(r, "net:drop") },
+		Monitors: world.MonitorsFor("C16"),
+		Nontrivial: func(r *world.Result) bool {
+			return probe(r, "net:silenced") || probe(r, "crash") || probe(r, "net:drop")
+		},
 	})
 	register(&PropDef{
 		ID: "C17",
